@@ -66,6 +66,19 @@ def cases(tier, seed):
         names = [n[0] for n in cd["nodes"]]
         for A in _assignments(rng, names, 1):
             yield {"c": cd, "A": A}
+    # a node named like something the library derives from a gate: every f-string template of the current source
+    for i, cd in enumerate(gen.template_family()):
+        e = cd["nodes"][3][0]
+        for A in ({}, {"h": True}, {e: True, "g": False}):
+            yield {"c": cd, "A": A}
+    # histories on ONE circuit object: solve, edit in place (same nodes and edges), solve again
+    for t0, t1 in (("and", "or"), ("xor", "xnor"), ("nand", "and"), ("or", "nor"), ("buf", "not")):
+        fis = ["a"] if t0 in ("buf", "not") else ["a", "b"]
+        cd = {"name": "hist", "nodes": [["a", "input", False], ["b", "input", False], ["g", t0, False], ["h", "and", True]],
+              "edges": [[f, "g"] for f in fis] + [["g", "h"], ["b", "h"]], "bbs": {}}
+        for A in ({}, {"h": True}, {"g": True}):
+            yield {"c": cd, "A": A, "history": [["set_type", "g", t1]]}
+            yield {"c": cd, "A": A, "history": [["set_output", "g", True], ["set_type", "g", t1], ["set_type", "g", t0]]}
     n_rand = 250 if tier == "quick" else 5000
     for i in range(n_rand):
         nasty = rng.random() < 0.5
@@ -98,6 +111,18 @@ def projected_models(formula, variables, nodes, cap=5000):
 def run_case(case):
     c = circ.build(case["c"])
     A = case["A"]
+    if case.get("history"):
+        # the same object is solved, edited in place and solved again: only the last state is checked below
+        try:
+            cg.sat.solve(c, dict(A))
+        except Exception:  # noqa
+            pass
+        for op in case["history"]:
+            getattr(c, op[0])(*op[1:])
+            try:
+                cg.sat.solve(c, dict(A))
+            except Exception:  # noqa
+                pass
     fails = []
     nodes = sorted(c.graph.nodes)
     snap = circ.snapshot(c)
